@@ -146,7 +146,7 @@ class SQLExecutor(object):
         """
         self.finish_transaction()
 
-        transaction = atomic()
+        transaction = atomic(using=self._database)
         transaction.__enter__()
         self._latest_transaction = transaction
 
